@@ -16,6 +16,17 @@ namespace verif
         static int fd = 1;
         return fd;
     }
+    // events written by this process (a forked child starts with the parent's count: reset in run_child)
+    inline long& event_count()
+    {
+        static long n = 0;
+        return n;
+    }
+    inline long& event_cap()
+    {
+        static long cap = 400000;
+        return cap;
+    }
 
     class Ev
     {
@@ -107,6 +118,10 @@ namespace verif
             if (done_)
                 return;
             done_ = true;
+            // a runaway loop in the code under test must not flood the trace: the child stops itself, the
+            // parent records it as an abnormal end (exit code 96)
+            if (++event_count() > event_cap())
+                _exit(96);
             if (ovf_)
                 buf_ += ",\"ovf\":true";
             buf_ += "}\n";
